@@ -16,6 +16,20 @@ fn main() {
     eprintln!("usage: mc <ID> <quick|thorough> | mc replay <file>");
     std::process::exit(2);
   }
+  if args[1] == "eval" {
+    // mc eval <schema-text> <json-text>: both validators on one state (triage aid)
+    let schema = args[2].replace("\\n", "\n");
+    println!("json: {}", verdicts::json_str(&schema, &args[3]).short());
+    if let Err(e) = cddl::validate_json_from_str(&schema, &args[3], None) {
+      println!("  detail: {e}");
+    }
+    if let Ok(v) = serde_json::from_str::<serde_json::Value>(&args[3]) {
+      let mut b = vec![];
+      ciborium::ser::into_writer(&v, &mut b).unwrap();
+      println!("cbor({}): {}", hex(&b), verdicts::cbor_slice(&schema, &b).short());
+    }
+    return;
+  }
   if args[1] == "replay" {
     let s = std::fs::read_to_string(&args[2]).expect("read replay file");
     let j: serde_json::Value = serde_json::from_str(&s).expect("json");
